@@ -18,8 +18,8 @@ SHRINK_BUDGET = {'quick': 20, 'thorough': 150}
 RULE = ('Every C11 command that generates and passes, followed by up to 4 '
         '(quick) / 6 (thorough) independent single mutations of what the '
         'command does, each applied to fresh payloads and undone afterwards: '
-        'substitute / insert / delete one character, append a trailing '
-        'space, add or remove one line of stdout, stderr or a text output '
+        'substitute / insert / delete one character, insert one '
+        'non-ASCII character, append a trailing space, add or remove one line of stdout, stderr or a text output '
         'file; flip / insert / delete one byte of a binary output file; stop '
         'producing one output file; change the exit status. Mutated lines '
         'contain none of the machine- or time-specific tokens (host, user, '
@@ -32,7 +32,7 @@ RULE = ('Every C11 command that generates and passes, followed by up to 4 '
 ASSUMPTIONS = ['edits that only touch the final newline or a trailing blank '
                'line are not produced (C04 documents that tolerance)']
 
-OPS = ['sub', 'ins', 'del', 'trail', 'addline', 'delline']
+OPS = ['sub', 'ins', 'del', 'trail', 'addline', 'delline', 'ins_na']
 
 
 @st.composite
@@ -121,6 +121,10 @@ def mutate_lines(lines, m, env):
     elif op == 'ins':
         j = m['j'] % (len(ln) + 1)
         lines[i] = ln[:j] + 'Q' + ln[j:]
+    elif op == 'ins_na':
+        # a character outside ASCII (the reference may be all ASCII)
+        j = m['j'] % (len(ln) + 1)
+        lines[i] = ln[:j] + ['\u00e9', '\u0301', '\u20ac'][m['k'] % 3] + ln[j:]
     elif not ln:
         return None
     elif op == 'sub':
@@ -175,21 +179,24 @@ def run(case, ctx):
             fl = cmd['files'][fi]
             expect_test = G.test_name_for(fl['name'])
             if fl['kind'] == 'text':
-                new = mutate_lines(fl['lines'], m, wd.env)
+                old_lines = G.file_lines(fl)
+                new = mutate_lines(old_lines, m, wd.env)
                 if new is None:
                     continue
                 with open(wd.payload_path('f%d' % fi), 'w',
                           encoding='utf-8', newline='') as f:
                     f.write(G.text_of(new, wd.env,
                                       fl.get('final_newline', True)))
-                desc = 'file %s %s: %r -> %r' % (fl['name'], m['op'],
-                                                 fl['lines'], new)
+                desc = 'file %s %s: %r -> %r' % (
+                    fl['name'], m['op'],
+                    [x for x in old_lines if x not in new][:3],
+                    [x for x in new if x not in old_lines][:3])
             else:
                 data = bytearray(bytes.fromhex(fl['hex']))
                 j = m['j'] % len(data)
                 if m['op'] in ('sub', 'trail', 'addline'):
                     data[j] ^= 0x55
-                elif m['op'] == 'ins':
+                elif m['op'] in ('ins', 'ins_na'):
                     data.insert(j, 0x51)
                 else:
                     if len(data) < 2:
